@@ -71,9 +71,11 @@ def run(tier):
         d = os.path.join(work, 'indir-' + sname)
         ziexpand.write_input_dir(lines, d)
         indirs[sname] = d
-    snames = [sname for sname, _l in sources]
-    for i, sname in enumerate(snames):
-        other_in[sname] = indirs[snames[(i + 1) % len(snames)]]
+    for sname, lines in sources:
+        # the source compiled first in the same process for run 1: the same names with other contents (see decoy_source)
+        d = os.path.join(work, 'indir-decoy-' + sname)
+        ziexpand.write_input_dir(compiler.decoy_source(lines), d)
+        other_in[sname] = d
     for sname, lines in sources:
         w = os.path.join(work, sname)
         os.makedirs(w)
@@ -83,8 +85,8 @@ def run(tier):
             label = '%s:%s' % (sname, scope)
             outs = []
             for k, hs in enumerate(['0', '0', '1', '17'] if tier == 'thorough' else ['0', '0', '3']):
-                # run 2 first compiles, in the same process, the other scope; run 1 first compiles another source (same policy
-                # names, other rules) in the same scope: the files must be identical to those of the cold run 0
+                # run 2 first compiles, in the same process, the other scope; run 1 first compiles a decoy of the source (same zone, link
+                # and policy names, other contents) in the same scope: the files must be identical to those of the cold run 0
                 extra = ()
                 if k == 2:
                     extra = ('warm',)
